@@ -54,7 +54,7 @@ plan(Plan(
     contracts=RENDER_FNS,
     lean={"HV.C07": ["rtag_strip", "rlist_strip", "hasObT_strip", "hasObL_strip", "C07_metadata_invisible", "C07_metadata_invisible_list", "C07_strip_idem"]},
     gconds=["G:TEXT_TABLE:keysFresh", "G:ATTR_TABLE:keysFresh", "G:TEXT_TABLE:singleCharKeys", "G:ATTR_TABLE:singleCharKeys",
-            "G:TEXT_TABLE:regexLiteralKeys", "G:ATTR_TABLE:regexLiteralKeys"],
+            "G:TEXT_TABLE:regexLiteralKeys", "G:ATTR_TABLE:regexLiteralKeys", "G:MetadataNode:not-self-rendering", "G:HTMLDependency:not-self-rendering"],
     oracle="c07", design_ref="§7 C07",
 ))
 plan(Plan(
@@ -111,25 +111,25 @@ plan(Plan(
     contracts=RENDER_FNS + HTML_FNS[:4] + [CORE + "_tagchilds_to_tagnodes"],
     lean={"HV.C02": ["TEXT_keys", "TEXT_refs", "C02_esc_spec", "C02_decodes", "C02_no_lt_gt", "C02_amp_only_refs", "C02_esc_append",
                      "C02_text_inert_list", "C02_text_inert_tag"]},
-    gconds=TABLE_G + ["G:htmltools.html_escape:reexport"], oracle="c02", design_ref="§7 C02",
+    gconds=TABLE_G + ["G:htmltools.html_escape:reexport", "G:_NO_ESCAPE_TAG_NAMES:script-style"], oracle="c02", design_ref="§7 C02",
     own=_own("html_escape", "_normalize_text", "_tagchilds_to_tagnodes"),
     assumptions=["`every way of adding a child` stores strings whole and numbers as str(n): the conversion function _tagchilds_to_tagnodes is verified here too; the mutators that call it are C14's contracts"],
 ))
 plan(Plan(
     id="C03", title="Attribute values are inert, single-line, and decode to the original",
-    contracts=[UTIL + "html_escape", CORE + "Tag.get_html_string"] + TAD_FNS + HTML_FNS,
+    contracts=[UTIL + "html_escape", CORE + "Tag.get_html_string"] + TAD_FNS + HTML_FNS + [CORE + "consolidate_attrs", CORE + "Tag.add_class"],
     lean={"HV.C03": ["ATTR_keys", "ATTR_refs", "C03_esc_spec", "C03_decodes", "C03_inert", "C03_amp_only_refs", "C03_esc_append", "C03_esc_space",
                      "C03_attr_segment", "C03_plain_attr", "C03_open_tag", "C03_merge", "C03_merge_raw"]},
     gconds=TABLE_G, oracle="c03", design_ref="§7 C03",
-    own=_own("html_escape", "TagAttrDict", "HTML.__add__", "HTML.__radd__", "Tag.get_html_string:loop0"),
+    own=_own("html_escape", "TagAttrDict", "HTML.__add__", "HTML.__radd__", "Tag.get_html_string:loop0", "consolidate_attrs", "Tag.add_class"),
 ))
 plan(Plan(
     id="C04", title="Trusted markup is emitted verbatim and escaping happens exactly once",
-    contracts=RENDER_FNS + HTML_FNS + [CORE + "wrap_displayhook_handler.handler_wrapper", CORE + "HTMLTextDocument.render", CORE + "_tagchilds_to_tagnodes"],
+    contracts=RENDER_FNS + HTML_FNS + [CORE + "wrap_displayhook_handler.handler_wrapper", CORE + "HTMLTextDocument.render", CORE + "_tagchilds_to_tagnodes", CORE + "consolidate_attrs"],
     lean={"HV.C02": ["C04_raw_verbatim_list", "C04_raw_verbatim_tag", "C04_repr_verbatim_tag", "C04_noesc_text_verbatim"],
           "HV.C03": ["C04_html_attr_verbatim", "C04_add_rend", "C04_add_raw", "C04_concat_algebra", "C04_all_plain"]},
     gconds=TABLE_G + ["G:HTML:no__iadd__"], oracle="c04", design_ref="§7 C04",
-    own=_own("HTML.", "_normalize_text", "html_escape", "handler_wrapper", "HTMLTextDocument.render", "_tagchilds_to_tagnodes"),
+    own=_own("HTML.", "_normalize_text", "html_escape", "handler_wrapper", "HTMLTextDocument.render", "_tagchilds_to_tagnodes", "consolidate_attrs"),
     assumptions=["`every rendering path`: besides get_html_string / render, the display hook of `with tag:` (its wrapper keeps _repr_html_ markup as HTML) and "
                  "HTMLTextDocument.render (placeholder replaced by str.replace, no template processing) are under contract here; HTMLDocument.render is C11's",
                  "`+` with operands other than str/HTML goes through str(other), an external call (A5); other UserString methods (%, format, join) are not in the statement"],
@@ -270,7 +270,7 @@ DOCP = CORE + "HTMLDocument."
 DOC_FNS = [DOCP + "_hoist_head_content", DOCP + "_gen_html_tag_tree", DOCP + "render"]
 plan(Plan(
     id="C11", title="HTMLDocument builds one head/body and hoists every dependency into head",
-    contracts=DOC_FNS + TAGIFY_FNS + DEPS_FNS + [CORE + "Tag.__copy__"],
+    contracts=DOC_FNS + TAGIFY_FNS + DEPS_FNS + [CORE + "Tag.__copy__", CORE + "HTMLDependency.as_html_tags#record"],
     lean={"HV.C11": ["first_is_head", "replace_first_same", "nodes_depTagChildren", "hoist_el", "C11_root_is_html", "C11_head_count", "C11_one_head_generated",
                      "C11_head_content", "C11_rest_untouched", "C11_each_dep_once", "C11_listing", "C11_no_listing_without_deps", "C11_returned_deps", "C11_doctype"]},
     oracle="c11", design_ref="§7 C11",
@@ -278,8 +278,8 @@ plan(Plan(
     claim="_hoist_head_content, _gen_html_tag_tree and render are verified from the real AST against the document spec (docTree / hoist / docRender); the structure of that "
           "spec (one html root, one head starting with meta charset, user head content kept in order, listing + each dependency's markup once in resolved order, "
           "siblings of the head untouched, returned list = resolved list) is proved in Lean",
-    assumptions=["HTMLDependency.as_html_tags is an assumed contract (an uninterpreted function depTags of the dependency, lib_prefix and include_version returning a TagList "
-                 "that contains no dependency objects); its meta/link/script/head order is covered by the bounded oracle only",
+    assumptions=["inside the document functions HTMLDependency.as_html_tags is used through an abstraction (an uninterpreted function depTags of the dependency, lib_prefix and "
+                 "include_version); the function itself is verified separately on record dependencies with item lists of length <= 2: meta tags, then link tags, then script tags, then head",
                  "str(version) is an uninterpreted function of the version; head_content()'s naming is C18's subject",
                  "the content's `ordinary rendering` is the renderer contract of C05-C07 (rtag), used here through Tag.render"],
     bounded=["B:C11:as_html_tags piece order and single occurrence in the rendered head: oracle with html.parser"],
@@ -292,7 +292,8 @@ def _c08_own(name):
 
 plan(Plan(
     id="C08", title="Rendering and tagify are pure and consistent; tagify returns an independent copy",
-    contracts=TAGIFY_FNS + DEPS_FNS + RENDER_FNS + DOC_FNS + [CORE + "Tag.__copy__", CORE + "_render_tag_or_taglist", CORE + "_equals_impl", CORE + "TagAttrDict._normalize_attr_name"],
+    contracts=TAGIFY_FNS + DEPS_FNS + RENDER_FNS + DOC_FNS + [CORE + "Tag.__copy__", CORE + "_render_tag_or_taglist", CORE + "_equals_impl", CORE + "TagAttrDict._normalize_attr_name",
+               CORE + "HTMLDependency.source_path_map", CORE + "HTMLDependency.as_dict", CORE + "HTMLDependency.as_html_tags#record", CORE + "HTMLDependency.serialize_to_script_json#record"],
     lean={"HV.C09": ["C08_tagify_id_T", "C08_tagify_id_L", "C08_tagify_fixed_point"],
           "HV.C08": ["C08_attrsEq_refl", "C08_eq_refl_N", "C08_eq_refl_L", "C08_eq_tag", "C08_eq_kinds", "C08_attrsEq_sound", "C08_nodesEq_cons", "C08_nodesEq_len", "C08_eq_text"],
           "HV.AttrFacts": ["C15_normName_idem"]},
@@ -302,12 +303,13 @@ plan(Plan(
           "newly allocated; Tag.__copy__ copies every field into a new object with its own attrs and children; str/repr/_repr_html_ reduce to render()['html'] in the "
           "default mode; tagify identity-when-nothing-to-expand and fixed point proved in Lean",
     assumptions=["value semantics with freshness flags (A1): aliasing between distinct parameters is not modelled",
-                 "HTMLDependency.as_html_tags / as_dict / source_path_map / serialize_to_script_json and save_html (file system, deepcopy, os.path) are outside the verified subset: "
-                 "their purity is covered by the bounded oracle's deep snapshots only",
+                 "HTMLDependency.source_path_map / as_dict / as_html_tags / serialize_to_script_json are executed on record dependencies (lists of length <= 2): every store "
+                 "targets a copy (F obligations); save_html's file-system effects are C12's subject",
                  "==: Tag / TagList / HTMLDependency.__eq__ are executed (through _equals_impl's body) on record views and proved equal to nodeEq / nodesEq / field-wise equality; "
                  "dict == dict is modelled as attrsEq (same keys, equal values, order irrelevant) and list == list as pairwise == (A3); a copied attribute map equals the original "
                  "because name normalisation is idempotent (C15_normName_idem over the verified _normalize_attr_name)"],
-    bounded=["B:C08:purity of the HTMLDependency methods and save_html: bounded oracle deep snapshot with object identities"],
+    bounded=["B:C08:the record harnesses of the HTMLDependency methods use script / stylesheet / meta lists of length <= 2",
+             "B:C08:purity of save_html and of whole interleavings: bounded oracle deep snapshot with object identities"],
 ))
 
 
@@ -395,7 +397,8 @@ def _c12_extra(ctx):
 DEPP = CORE + "HTMLDependency."
 plan(Plan(
     id="C12", title="Dependency URLs and copied files agree", level="other",
-    contracts=[DEPP + "source_path_map", DEPP + "as_dict", CORE + "HTMLDocument.save_html", CORE + "Tag.save_html#delegates"],
+    contracts=[DEPP + "source_path_map", DEPP + "as_dict", DEPP + "as_html_tags#record", CORE + "HTMLDocument.save_html", CORE + "Tag.save_html#delegates",
+               CORE + "HTMLDocument._gen_html_tag_tree", CORE + "HTMLDocument._hoist_head_content"],
     lean={"HV.C12": ["C12_pjoin_assoc", "C12_copy_target_is_url_target", "C12_copy_target_is_url_target_nolib", "C12_local_url_shape"]},
     extra=_c12_extra, oracle="c12", design_ref="§7 C12", own=lambda name: True,
     claim="mixed: (proved, from the real AST) source_path_map's href is [prefix/]name[-version] for local sources, the URL for URL sources, '' otherwise, and its source is '' exactly "
@@ -415,3 +418,8 @@ plan(Plan(
              "B:C12:save_html on a temporary directory: every local URL resolves to a byte-identical copy; all_files copies the directory; stale contents are gone; "
              "a missing listed file raises with the target directory untouched; URL-sourced and source-less dependencies copy nothing"],
 ))
+
+
+# A2 (the kinds of stored children partition) for metadata nodes is a checked condition wherever a property relies on metadata being skipped
+for _p in ("C09", "C17", "C08", "C10", "C11"):
+    PLANS[_p].gconds = list(PLANS[_p].gconds) + ["G:MetadataNode:not-self-rendering", "G:HTMLDependency:not-self-rendering"]
